@@ -1,0 +1,67 @@
+//! Verification hooks, compiled only with `--cfg sos_verif`.
+//!
+//! * clock override: lets a harness make `UtcDateTime::now()` deterministic
+//!   (merge order is decided by record timestamps);
+//! * step probes: named points at which a harness can stop an operation
+//!   to examine what a crash there would leave behind.
+use std::sync::atomic::{AtomicI64, AtomicU64, Ordering};
+use std::sync::Mutex;
+use time::OffsetDateTime;
+
+/// Nanoseconds since the UNIX epoch; zero means no override.
+static CLOCK_NANOS: AtomicI64 = AtomicI64::new(0);
+/// Nanoseconds added after every read so that times stay distinct.
+static CLOCK_STEP: AtomicI64 = AtomicI64::new(1_000);
+
+/// Set the clock override (zero disables it).
+pub fn set_clock(nanos_since_epoch: i64, step: i64) {
+    CLOCK_NANOS.store(nanos_since_epoch, Ordering::SeqCst);
+    CLOCK_STEP.store(step, Ordering::SeqCst);
+}
+
+/// Current override, advancing it by the configured step.
+pub fn clock_override() -> Option<OffsetDateTime> {
+    let step = CLOCK_STEP.load(Ordering::SeqCst);
+    let now = CLOCK_NANOS.load(Ordering::SeqCst);
+    if now == 0 {
+        return None;
+    }
+    let value = CLOCK_NANOS.fetch_add(step, Ordering::SeqCst);
+    OffsetDateTime::from_unix_timestamp_nanos(value as i128).ok()
+}
+
+/// Probe counter: number of probes passed since the last reset.
+static PROBE_COUNT: AtomicU64 = AtomicU64::new(0);
+/// Stop (panic with a marker) when the counter reaches this value;
+/// zero means never stop.
+static PROBE_STOP_AT: AtomicU64 = AtomicU64::new(0);
+/// Names of the probes passed since the last reset.
+static PROBE_LOG: Mutex<Vec<&'static str>> = Mutex::new(Vec::new());
+
+/// Marker carried by the panic raised at an armed probe.
+pub const PROBE_STOP_MARKER: &str = "sos-verif-probe-stop";
+
+/// Reset the probe counter and arm it to stop at the k-th probe (0 = never).
+pub fn arm_probes(stop_at: u64) {
+    PROBE_COUNT.store(0, Ordering::SeqCst);
+    PROBE_STOP_AT.store(stop_at, Ordering::SeqCst);
+    PROBE_LOG.lock().unwrap().clear();
+}
+
+/// Probes passed since the last reset.
+pub fn probes_passed() -> Vec<&'static str> {
+    PROBE_LOG.lock().unwrap().clone()
+}
+
+/// Pass a named probe.
+pub fn probe(name: &'static str) {
+    let n = PROBE_COUNT.fetch_add(1, Ordering::SeqCst) + 1;
+    if let Ok(mut log) = PROBE_LOG.lock() {
+        log.push(name);
+    }
+    let stop = PROBE_STOP_AT.load(Ordering::SeqCst);
+    if stop != 0 && n == stop {
+        PROBE_STOP_AT.store(0, Ordering::SeqCst);
+        panic!("{PROBE_STOP_MARKER}:{name}");
+    }
+}
